@@ -219,9 +219,8 @@ example : tailStr 0 = .ok none := by decide +kernel
     name, whatever inputs the harness happens to generate. -/
 theorem hidden_state_reviewed :
     Gen.HiddenState.sitesIn ["data/tail.rs", "data/patterns.rs"] =
-      [("data/patterns.rs", "pub static PATTERNS: Lazy<Patterns> ="),
-       ("data/patterns.rs", "Lazy::new(|| serde_json::from_str(PATTERNS_JSON).unwrap());"),
-       ("data/tail.rs", "static NUMERIC_MAPPINGS: Lazy<Vec<NumericMapping>> = Lazy::new(|| {"),
-       ("data/tail.rs", "static STRIDE_MAPPINGS: Lazy<Vec<StrideMapping>> = Lazy::new(|| {")] := by decide
+      [("data/patterns.rs", "pub static PATTERNS:Lazy<Patterns>=Lazy::new(||serde_json::from_str(PATTERNS_JSON).unwrap());"),
+       ("data/tail.rs", "static NUMERIC_MAPPINGS:Lazy<Vec<NumericMapping>>=Lazy::new(||{"),
+       ("data/tail.rs", "static STRIDE_MAPPINGS:Lazy<Vec<StrideMapping>>=Lazy::new(||{")] := by decide
 
 end Rs1090.Props.C14
